@@ -1,5 +1,5 @@
 from .. import facts
-from ..rules import traps, threads, image
+from ..rules import traps, threads, image, prefetch
 
 
 def run(ck):
@@ -11,3 +11,4 @@ def run(ck):
     threads.r4_sources_untouched(ck, P)
     traps.r7_edge_clamps(ck, P)              # C04-R7: a read-modify-write of the byte after a row races with the thread that owns the adjacent image
     image.r_validate_clears_dirty(ck, P, 'C16-R5')
+    prefetch.r11_tail_access_needs_remaining_count(ck, P, 'C16-R6')   # a read-modify-write of the word after the span races with the thread that owns it
